@@ -265,6 +265,18 @@ func init() {
 		o.MinSites(2)
 	})
 
+	reg("C19", "C19.7", "T2,T5", "every mutex acquired in the cluster package is released on every return path (a leaked read lock blocks AddState and then all message handling)", func(o *Ob) {
+		e := o.E
+		// tlsConn.read leaves conn.mtx locked on its first error return.  The receiver is a throw-away wrapper:
+		// its only caller creates it with rcvTLSConn for this one read and drops it on error, so nothing can block on it.
+		rd := o.Fn("(*am/cluster.tlsConn).read")
+		for _, cs := range e.callers[rd] {
+			o.Check(e.Arg(cs.Instr, 0) == "am/cluster.rcvTLSConn(p0)" && fnName(cs.Caller) == "(*am/cluster.TLSTransport).handle", "tlsconn-read-caller", "tlsConn.read is now called on a connection that outlives the call ("+e.Arg(cs.Instr, 0)+" in "+fnName(cs.Caller)+"): its error path returns with the connection mutex held", cs.Instr)
+		}
+		lockBalanceRuleEx(o, map[string]string{"(*am/cluster.tlsConn).read": "receiver is a per-read wrapper (rcvTLSConn) dropped on error; asserted above"}, "am/cluster")
+		o.MinSites(5)
+	})
+
 	reg("C19", "C19.6", "T2,T5", "AddState registers the state under the lock before the channel exists", func(o *Ob) {
 		e := o.E
 		as := o.Fn("(*am/cluster.Peer).AddState")
